@@ -22,6 +22,7 @@ def parse(results_dir):
             m = re.match(r"=== (\S+) (C\d\d) #(\d+) -> (.*)", line)
             if m:
                 cur = res.setdefault((m.group(2), m.group(3)), {"checks": {}, "demo_with": None, "demo_without": None, "apply_failed": False})
+                cur["apply_failed"] = False  # (a later file re-evaluates the change, e.g. after its patch was ported)
                 continue
             if cur is None:
                 continue
